@@ -696,7 +696,8 @@ do_op(int op, int w) {
     if (r) {
       coap_register_request_handler(r, COAP_REQUEST_GET, hnd_get);
       coap_add_resource(ctx, r);
-      coap_delete_resource(ctx, r);
+      /* the context argument is documented as ignored; the man page and the examples pass NULL */
+      coap_delete_resource(w & 1 ? NULL : ctx, r);
     }
     break;
   }
